@@ -225,7 +225,7 @@ int main(int argc, char** argv) {
       });
     (void)ok;
   }
-  iso.batch = 512; iso.slot_bytes = 1024;
+  iso.batch = 4096; iso.slot_bytes = 768;
   for (auto& p : P) {
     ctx.sub("strings-" + p.name);
     // the full list of inputs for this parser is: [0, n2) bytes<=2 ; [n2, n2+n3) len 3 ; then edits ; then nasty
